@@ -4,11 +4,22 @@ package p2psender
 
 // Contracts for the deductive checks in /verif (comment-only; no code).
 
-// Used at call sites of the announce receiver only: closing the sender touches
-// pubsub-internal state, nothing the receiver holds.
+// Closing the sender touches pubsub-internal state and its own cancel function, nothing a caller holds;
+// a sender that does not own its topic is left alone; the topic is closed at most once.
 //@ func (*Sender).Close
-//@   trusted "leaves the pubsub topic / cancels pubsub; only pubsub-internal state changes"
-//@   pure
+//@   property C16
+//@   requires s != nil && (s.cancelPubSub != nil ==> s.topic != nil)
+//@   modifies s.cancelPubSub
+//@   ensures s.cancelPubSub == nil
+//@   ensures-local old(s.cancelPubSub) == nil ==> result == nil && count("call:Close") == 0
+//@   ensures-local old(s.cancelPubSub) != nil ==> count("call:Close") == 1
+
+// A sender owns a cancel function only together with the topic it made.
+//@ func New
+//@   property C16
+//@   requires p2pHost != nil || str(topicName) == str("")
+//@   ensures result1 == nil ==> result0 != nil && isfresh(result0) && (result0.cancelPubSub != nil ==> result0.topic != nil)
+//@   ensures result1 != nil ==> result0 == nil
 
 // C10, the pubsub sender: the message is encoded to CBOR exactly once, with the sender's extra data
 // in place of the message's iff the sender has some, and the bytes of that buffer are what is published.
